@@ -60,6 +60,12 @@ func (r *Run) lockOpOf(ev Event) *lockOp {
 		if x == nil {
 			return nil
 		}
+		if id, isID := ast.Unparen(x).(*ast.Ident); isID {
+			if v, isVar := fn.Info().Uses[id].(*types.Var); isVar && isParamOf(fn, v) {
+				// the helper on its own, outside any call: which lock it takes is decided where it is called
+				return nil
+			}
+		}
 		return &lockOp{Key: r.lockKey(fn, x), Op: op, Expr: x}
 	}
 	if !ok || (rn.Obj().Name() != "Mutex" && rn.Obj().Name() != "RWMutex") {
@@ -519,7 +525,7 @@ func (r *Run) collectCallSites(d *Deep, caller *Func) {
 			if ev.Kind != EvCall || ev.Call == nil {
 				continue
 			}
-			known, _ := d.Callees(r.P, ev.Call)
+			known := r.calleesAt(d, ev)
 			if len(known) == 0 {
 				continue
 			}
@@ -540,6 +546,38 @@ func (r *Run) collectCallSites(d *Deep, caller *Func) {
 			}
 		}
 	}
+}
+
+// calleesAt: who may be called by the call event. A call through a function-typed parameter of a helper that
+// is being looked into (f() inside locked(mu, f)) calls what was handed in at this call site, not every
+// closure the program ever hands to that helper (which is what a context-insensitive call graph says).
+func (r *Run) calleesAt(d *Deep, ev Event) []*Func {
+	if id, ok := ast.Unparen(ev.Call.Fun).(*ast.Ident); ok && ev.Fn != nil {
+		if v, isVar := ev.Fn.Info().Uses[id].(*types.Var); isVar && isParamOf(ev.Fn, v) {
+			if bfn, bx := resolveBound(ev.Fn, id); bfn != ev.Fn || bx != ast.Expr(id) {
+				switch a := ast.Unparen(bx).(type) {
+				case *ast.FuncLit:
+					if lf := r.P.Lits[a]; lf != nil {
+						return []*Func{lf}
+					}
+				case *ast.Ident, *ast.SelectorExpr:
+					var obj types.Object
+					if aid, isID := a.(*ast.Ident); isID {
+						obj = bfn.Info().Uses[aid]
+					} else {
+						obj = bfn.Info().Uses[a.(*ast.SelectorExpr).Sel]
+					}
+					if f, isF := obj.(*types.Func); isF {
+						if g := r.P.Funcs[f]; g != nil {
+							return []*Func{g}
+						}
+					}
+				}
+			}
+		}
+	}
+	known, _ := d.Callees(r.P, ev.Call)
+	return known
 }
 
 type callSite struct {
@@ -1086,7 +1124,7 @@ func (r *Run) acquires(fn *Func, memo map[*Func]map[string]string, stack map[*Fu
 				continue
 			}
 			if ev.Kind == EvCall && ev.Call != nil && d != nil && ev.Depth >= 0 {
-				known, _ := d.Callees(r.P, ev.Call)
+				known := r.calleesAt(d, ev)
 				for _, g := range known {
 					for k, v := range r.acquires(g, memo, stack) {
 						if out[k] != "W" {
@@ -1136,7 +1174,7 @@ func ruleLockOrder(r *Run) {
 					continue
 				}
 				if ev.Kind == EvCall && ev.Call != nil && len(held[i]) > 0 {
-					known, _ := d.Callees(r.P, ev.Call)
+					known := r.calleesAt(d, ev)
 					for _, g := range known {
 						for k, v := range r.acquires(g, memo, map[*Func]bool{}) {
 							add(held[i], k, v, fn, ev.Pos)
